@@ -32,7 +32,7 @@ let split_bar toks =
 let () =
   let ic = open_in Sys.argv.(1) in
   let cases = ref 0 and steps = ref 0 and mism = ref 0 and core_cases = ref 0 and fec_cases = ref 0 in
-  let gets_total = ref 0 and puts_total = ref 0 in
+  let gets_total = ref 0 and puts_total = ref 0 and retunes = ref 0 and retunes_held = ref 0 in
   let eps = Array.make 2 (init { c_mss = z_of_int 1; c_stream = false; c_rcvwnd = z_of_int 1; c_snd0 = Z0; c_rcv0 = Z0 }) in
   let fec = ref finit in
   let case_id = ref "" and stepno = ref 0 and bad = ref false in
@@ -66,6 +66,9 @@ let () =
              | "accept" :: sid :: "alldata" :: r -> FAccept (z_of_int (i sid), RAllData, olds r)
              | "accept" :: sid :: "recover" :: nm :: ok :: r -> FAccept (z_of_int (i sid), RRecover (nat_of_int (i nm), i ok <> 0), olds r)
              | _ -> failwith ("bad D line: " ^ line) in
+           (match d with
+            | FRetune -> incr retunes; if fholders !fec <> [] then incr retunes_held
+            | _ -> ());
            let (f', evs) = fec_input !fec d in
            fec := f';
            let got = [ int_of_z (n_gets evs); int_of_z (n_puts evs); List.length (fholders f') ] in
@@ -99,5 +102,5 @@ let () =
        | _ -> ()
      done
    with End_of_file -> ());
-  Printf.printf "SUMMARY cases=%d steps=%d mismatches=%d core_cases=%d fec_cases=%d model_gets=%d model_puts=%d\n"
-    !cases !steps !mism !core_cases !fec_cases !gets_total !puts_total
+  Printf.printf "SUMMARY cases=%d steps=%d mismatches=%d core_cases=%d fec_cases=%d model_gets=%d model_puts=%d fec_retunes_replayed=%d fec_retunes_with_parked_packets_replayed=%d\n"
+    !cases !steps !mism !core_cases !fec_cases !gets_total !puts_total !retunes !retunes_held
